@@ -12,6 +12,7 @@ import (
 	"sort"
 	"strings"
 	"sync"
+	"sync/atomic"
 	"testing"
 	"testing/synctest"
 	"time"
@@ -135,6 +136,7 @@ type World struct {
 	Wire   *WireMonitor
 	Window *WindowMonitor
 	yield  *YieldPlan
+	jitter atomic.Int64
 	start  time.Time
 }
 
@@ -473,12 +475,30 @@ type YieldPlan struct {
 	Fn    func(point string, n int)
 }
 
+// EnableJitter makes every yield point of the scenario hand the processor to
+// other goroutines a pseudo-random number of times (0..7). It never sleeps, so
+// it is safe at points where the library holds a mutex; it composes with
+// whatever plan a family installs.
+func (w *World) EnableJitter(seed int64) {
+	w.jitter.Store(seed | 1)
+	if w.yield == nil {
+		w.installYield(&YieldPlan{})
+	}
+	w.Stat("scenarios_with_scheduling_jitter", 1)
+}
+
 func (w *World) installYield(p *YieldPlan) {
 	w.yield = p
 	if p.Hits == nil {
 		p.Hits = map[string]int{}
 	}
 	grpctunnel.VerifSetYield(func(point string) {
+		if w.jitter.Load() != 0 {
+			x := w.jitter.Add(0x1e3779b97f4a7c15)
+			for i := int64(0); i < (x>>57)&7; i++ {
+				runtime.Gosched()
+			}
+		}
 		p.mu.Lock()
 		n := p.Hits[point]
 		p.Hits[point] = n + 1
